@@ -34,15 +34,15 @@ def _seeds():
 
 
 def _run_one(args):
-    name, pids, patch, src_root = args
+    name, pids, patch, src_root, base_hint = args
     from .cli import run_check
+    from .seedbase import materialise, baseline_keys
 
     tmp = Path(tempfile.mkdtemp(prefix="vf-selftest-"))
     try:
-        shutil.copytree(Path(src_root) / "src" / "experimaestro", tmp / "src" / "experimaestro", ignore=shutil.ignore_patterns("__pycache__", "node_modules"))
-        r = subprocess.run(["patch", "-p1", "-s", "--no-backup-if-mismatch", "-i", str(patch)], cwd=tmp, capture_output=True, text=True)
-        if r.returncode != 0:
-            return name, "skipped", {}, (r.stdout + r.stderr)[-300:]
+        applied, base = materialise(patch, tmp, Path(src_root), base_hint)
+        if not applied:
+            return name, "skipped", {}, "patch applies neither to the current tree nor to the trees of /repo's history it was written for"
         res = {}
         os.environ["VERIF_REPO"] = str(tmp)
         for pid in pids:
@@ -51,7 +51,15 @@ def _run_one(args):
             buf = io.StringIO()
             with contextlib.redirect_stdout(buf):
                 chk, code = run_check(pid, "quick", 0, write=False, tree=Tree(tmp), quiet=True)
-            res[pid] = {"exit": code, "findings": [f"{f.rule} {f.key}" for f in chk.findings][:6]}
+            keys = [f"{f.rule} {f.key}" for f in chk.findings]
+            if base is not None:
+                # the seed was written for an earlier tree: what that tree already shows (defects repaired since) does not count
+                os.environ["VERIF_REPO"] = src_root
+                known = baseline_keys(base, pid, Path(src_root))
+                os.environ["VERIF_REPO"] = str(tmp)
+                keys = [k for k in keys if k not in known]
+                code = 1 if keys else (2 if code == 2 else 0)
+            res[pid] = {"exit": code, "findings": keys[:6], **({"applied_to": base} if base else {})}
         return name, "ran", res, ""
     finally:
         shutil.rmtree(tmp, ignore_errors=True)
@@ -65,7 +73,7 @@ def run_selftest(pids, jobs=16, verbose=False, record=False):
         targets = m.get("detected_by_expected") or [m.get("property")]
         if pids and not (set(targets) & set(pids)):
             continue
-        work.append((name, [p for p in targets if not pids or p in pids], str(patch), str(repo_root())))
+        work.append((name, [p for p in targets if not pids or p in pids], str(patch), str(repo_root()), m.get("base_commit")))
     results = []
     if work:
         with ProcessPoolExecutor(max_workers=min(jobs, len(work))) as ex:
